@@ -703,6 +703,221 @@ const fallbackIsFalse = `def isFalse {N : Type} : Val N → Bool := Val.isFalse
 
 `
 
+
+// ---- the comparator clause of Execute (interpreter.go, `case ASTComparator:`) ----
+//
+// After the two operand evaluations (`left, err := intr.Execute(node.children[0], value)` … — skipped: every
+// statement up to and including the second `if err != nil { return nil, err }`), the clause is a sequence of
+//   * `switch node.value { case tXX: return E, nil … }` with E built from `objsEqual(left, right)`, `!`, and
+//     comparisons `a OP b` of the asserted numbers,
+//   * `x, ok := <operand>.(float64)` followed by `if !ok { return nil, nil }`,
+// translated in order (so moving the number assertions in front of the equality switch changes the translation).
+
+var cmpTokNames = map[string]string{"tEQ": "eq", "tNE": "ne", "tLT": "lt", "tLTE": "lte", "tGT": "gt", "tGTE": "gte"}
+
+func (t *tr) tryComparator(dir string) (out string, why string) {
+	defer func() {
+		if r := recover(); r != nil {
+			if m, ok := r.(refusal); ok {
+				out, why = "", string(m)
+				return
+			}
+			panic(r)
+		}
+	}()
+	no := func(format string, a ...interface{}) { panic(refusal(fmt.Sprintf(format, a...))) }
+	fset := token.NewFileSet()
+	file, err := parser.ParseFile(fset, filepath.Join(dir, "interpreter.go"), nil, 0)
+	if err != nil {
+		no("interpreter.go: %v", err)
+	}
+	var clause *ast.CaseClause
+	ast.Inspect(file, func(n ast.Node) bool {
+		if cc, ok := n.(*ast.CaseClause); ok && len(cc.List) == 1 {
+			if id, ok := cc.List[0].(*ast.Ident); ok && id.Name == "ASTComparator" {
+				if clause != nil {
+					no("two clauses `case ASTComparator:`")
+				}
+				clause = cc
+			}
+		}
+		return true
+	})
+	if clause == nil {
+		no("no clause `case ASTComparator:`")
+	}
+	// skip the operand evaluations: up to the second `if err != nil { return nil, err }`
+	body := clause.Body
+	seen, start := 0, -1
+	var operands []string
+	for i, st := range body {
+		if as, ok := st.(*ast.AssignStmt); ok && len(as.Lhs) == 2 && len(as.Rhs) == 1 {
+			if call, ok := as.Rhs[0].(*ast.CallExpr); ok {
+				if sel, ok := call.Fun.(*ast.SelectorExpr); ok && sel.Sel.Name == "Execute" {
+					if id, ok := as.Lhs[0].(*ast.Ident); ok {
+						operands = append(operands, id.Name)
+					}
+				}
+			}
+		}
+		if is, ok := st.(*ast.IfStmt); ok && is.Init == nil {
+			if be, ok := is.Cond.(*ast.BinaryExpr); ok && be.Op == token.NEQ {
+				if x, ok := be.X.(*ast.Ident); ok && x.Name == "err" {
+					seen++
+					if seen == 2 {
+						start = i + 1
+						break
+					}
+				}
+			}
+		}
+	}
+	if start < 0 || len(operands) != 2 {
+		no("the comparator clause does not start with two checked operand evaluations")
+	}
+	left, right := operands[0], operands[1]
+	nums := map[string]bool{} // variables asserted to float64
+	var expr func(e ast.Expr) string
+	expr = func(e ast.Expr) string {
+		switch x := e.(type) {
+		case *ast.ParenExpr:
+			return expr(x.X)
+		case *ast.UnaryExpr:
+			if x.Op == token.NOT {
+				return "(!" + expr(x.X) + ")"
+			}
+		case *ast.CallExpr:
+			if id, ok := x.Fun.(*ast.Ident); ok && id.Name == "objsEqual" && len(x.Args) == 2 {
+				a, okA := x.Args[0].(*ast.Ident)
+				b, okB := x.Args[1].(*ast.Ident)
+				if okA && okB && (a.Name == left || a.Name == right) && (b.Name == left || b.Name == right) {
+					return "(Val.deepEq " + leanName(a.Name) + " " + leanName(b.Name) + ")"
+				}
+			}
+		case *ast.BinaryExpr:
+			a, okA := x.X.(*ast.Ident)
+			b, okB := x.Y.(*ast.Ident)
+			if okA && okB && nums[a.Name] && nums[b.Name] {
+				switch x.Op {
+				case token.LSS:
+					return "(NumOps.lt " + leanName(a.Name) + " " + leanName(b.Name) + ")"
+				case token.LEQ:
+					return "(NumOps.le " + leanName(a.Name) + " " + leanName(b.Name) + ")"
+				case token.GTR:
+					return "(NumOps.lt " + leanName(b.Name) + " " + leanName(a.Name) + ")"
+				case token.GEQ:
+					return "(NumOps.le " + leanName(b.Name) + " " + leanName(a.Name) + ")"
+				}
+			}
+		}
+		no("expression outside the shape of the comparator clause")
+		return ""
+	}
+	var seq func(sts []ast.Stmt, ind string) string
+	seq = func(sts []ast.Stmt, ind string) string {
+		if len(sts) == 0 {
+			return ind + ".null  -- falls out of the clause\n"
+		}
+		switch x := sts[0].(type) {
+		case *ast.SwitchStmt:
+			sel, ok := x.Tag.(*ast.SelectorExpr)
+			if !ok || sel.Sel.Name != "value" || x.Init != nil {
+				no("a switch that is not on node.value")
+			}
+			res := ind + "match op with\n"
+			for _, c := range x.Body.List {
+				cc := c.(*ast.CaseClause)
+				if len(cc.List) == 0 {
+					no("default clause in a comparator switch")
+				}
+				if len(cc.Body) != 1 {
+					no("a comparator case that is not a single return")
+				}
+				ret, ok := cc.Body[0].(*ast.ReturnStmt)
+				if !ok || len(ret.Results) != 2 {
+					no("a comparator case that is not `return E, nil`")
+				}
+				if id, ok := ret.Results[1].(*ast.Ident); !ok || id.Name != "nil" {
+					no("a comparator case returning an error")
+				}
+				val := ".null"
+				if id, ok := ret.Results[0].(*ast.Ident); !ok || id.Name != "nil" {
+					val = ".bool " + expr(ret.Results[0])
+				}
+				for _, tk := range cc.List {
+					id, ok := tk.(*ast.Ident)
+					if !ok || cmpTokNames[id.Name] == "" {
+						no("a comparator case that does not list comparator tokens")
+					}
+					res += fmt.Sprintf("%s| .%s => %s\n", ind, cmpTokNames[id.Name], val)
+				}
+			}
+			res += ind + "| _ =>\n" + seq(sts[1:], ind+"  ")
+			return res
+		case *ast.AssignStmt:
+			// x, ok := operand.(float64) ; if !ok { return nil, nil }
+			if len(x.Lhs) != 2 || len(x.Rhs) != 1 || len(sts) < 2 {
+				no("an assignment that is not a checked number assertion")
+			}
+			ta, ok := x.Rhs[0].(*ast.TypeAssertExpr)
+			if !ok {
+				no("an assignment that is not a type assertion")
+			}
+			if id, ok := ta.Type.(*ast.Ident); !ok || id.Name != "float64" {
+				no("an assertion to a type other than float64")
+			}
+			src, ok := ta.X.(*ast.Ident)
+			if !ok || (src.Name != left && src.Name != right) {
+				no("an assertion on something other than an operand")
+			}
+			is, ok := sts[1].(*ast.IfStmt)
+			if !ok || is.Else != nil || len(is.Body.List) != 1 {
+				no("a number assertion not followed by `if !ok { return nil, nil }`")
+			}
+			if u, ok := is.Cond.(*ast.UnaryExpr); !ok || u.Op != token.NOT {
+				no("a number assertion not followed by `if !ok`")
+			}
+			ret, ok := is.Body.List[0].(*ast.ReturnStmt)
+			if !ok || len(ret.Results) != 2 {
+				no("a failed number assertion that does not return")
+			}
+			for _, r := range ret.Results {
+				if id, ok := r.(*ast.Ident); !ok || id.Name != "nil" {
+					no("a failed number assertion that does not return nil, nil")
+				}
+			}
+			name := x.Lhs[0].(*ast.Ident).Name
+			nums[name] = true
+			return fmt.Sprintf("%smatch %s with\n%s| .num %s =>\n%s%s| _ => .null\n", ind, leanName(src.Name), ind, leanName(name), seq(sts[2:], ind+"  "), ind)
+		}
+		no("statement of kind %T in the comparator clause", sts[0])
+		return ""
+	}
+	text := seq(body[start:], "  ")
+	return fmt.Sprintf("def compareVals {N : Type} [NumOps N] (op : Cmp) (%s %s : Val N) : Val N :=\n%s\n", leanName(left), leanName(right), text), ""
+}
+
+const fallbackComparator = `def compareVals {N : Type} [NumOps N] (op : Cmp) (left right : Val N) : Val N :=
+  match op with
+  | .eq => .bool (Val.deepEq left right)
+  | .ne => .bool (!(Val.deepEq left right))
+  | _ =>
+    match left with
+    | .num leftNum =>
+      match right with
+      | .num rightNum =>
+        match op with
+        | .gt => .bool (NumOps.lt rightNum leftNum)
+        | .gte => .bool (NumOps.le rightNum leftNum)
+        | .lt => .bool (NumOps.lt leftNum rightNum)
+        | .lte => .bool (NumOps.le leftNum rightNum)
+        | _ =>
+          .null
+      | _ => .null
+    | _ => .null
+
+`
+
 // ---- the pattern translation of `slice` ----
 
 type loopPieces struct{ cond, idx, guard, post string }
@@ -1034,7 +1249,7 @@ func main() {
 
 	var b strings.Builder
 	b.WriteString("-- GENERATED by /verif/tools/gotolean from util.go of /repo (working tree). Do not edit.\n")
-	b.WriteString("import Jmes.Slice\nimport Jmes.Value\nnamespace Jmes.GenSlice\nopen Jmes.Slice (wrap64)\n\n")
+	b.WriteString("import Jmes.Slice\nimport Jmes.Value\nimport Jmes.Ast\nnamespace Jmes.GenSlice\nopen Jmes.Slice (wrap64)\n\n")
 	b.WriteString("/-- `true`: the definitions below are the translation of the Go source; `false`: the translator\n    refused the source and they are aliases of the hand-written model. -/\ndef translated : Bool := true\n\n")
 	b.WriteString("structure SliceParam where\n  N : Int\n  Specified : Bool\n  deriving Inhabited, Repr, DecidableEq\n\n")
 	for _, w := range want {
@@ -1086,6 +1301,15 @@ func main() {
 	} else {
 		b.WriteString("/-- interpreter.go, `case ASTIndex:` on a `[]interface{}` of length `length`: the selected position, `none` = null -/\ndef indexTranslated : Bool := true\n\n")
 		b.WriteString(idx)
+	}
+	cmpText, why4 := t.tryComparator(dir)
+	if cmpText == "" {
+		fmt.Fprintf(&b, "/-- the comparator clause of Execute was not in the shape the translator reads (%s): hand-written -/\ndef comparatorTranslated : Bool := false\n\n", strings.Replace(why4, "-/", "- /", -1))
+		b.WriteString(fallbackComparator)
+		fmt.Fprintf(os.Stderr, "gotolean: comparator clause not translated: %s\n", why4)
+	} else {
+		b.WriteString("/-- interpreter.go, `case ASTComparator:` after the operands are evaluated: the statements in order -/\ndef comparatorTranslated : Bool := true\n\n")
+		b.WriteString(cmpText)
 	}
 	b.WriteString("end Jmes.GenSlice\n")
 	if err := ioutil.WriteFile(outPath, []byte(b.String()), 0o644); err != nil {
